@@ -54,6 +54,31 @@ var MethodCallPoint = make(map[string][]CallPoint)
 var MethodCalleePoint = make(map[string][]CalleePoint)
 var SpecialCodeComments = []SpecialCodeComment{}
 
+// compareSigTies orders signatures that share method, class and frame (a
+// class method and an instance method of one name, overloads), so that the
+// listings do not depend on map iteration order.
+func compareSigTies(a, b Sig) int {
+	if a.IsStatic != b.IsStatic {
+		if !a.IsStatic {
+			return -1
+		}
+		return 1
+	}
+	if a.Detail != b.Detail {
+		if a.Detail < b.Detail {
+			return -1
+		}
+		return 1
+	}
+	if a.FileName != b.FileName {
+		if a.FileName < b.FileName {
+			return -1
+		}
+		return 1
+	}
+	return a.Row - b.Row
+}
+
 func GetSortedTSignatures() []Sig {
 	sortedSignatures := make([]Sig, 0, len(TSignatures))
 
@@ -80,7 +105,7 @@ func GetSortedTSignatures() []Sig {
 		if a.Frame > b.Frame {
 			return 1
 		}
-		return 0
+		return compareSigTies(a, b)
 	})
 
 	return sortedSignatures
@@ -112,7 +137,7 @@ func GetSortedTSignaturesByClass() []Sig {
 		if a.Frame > b.Frame {
 			return 1
 		}
-		return 0
+		return compareSigTies(a, b)
 	})
 
 	return sortedSignatures
